@@ -270,6 +270,10 @@ func runC10(c *CaseCtx) (res CaseResult) {
 		sh := r.Int63()
 		a1 := in1.AllArgs(0, rand.New(&splitmix{s: uint64(sh)}))
 		a2 := in2.AllArgs(0, rand.New(&splitmix{s: uint64(sh)}))
+		if r.Intn(5) == 0 {
+			pollute(r)
+			res.obs("operations_preceded_by_an_unrelated_failing_one", 1)
+		}
 		o1 := DoConvert(in1.W, types[T], a1)
 		res.Evals++
 		det := map[string]interface{}{"scenario": s.String(), "T": typeName(T), "class": o1.Class, "err": firstLine(errStr(o1.Err)), "panic": o1.Panic, "events": eventsStr(o1.Events)}
